@@ -34,6 +34,7 @@ enum SampleError {
     WrongSize(usize),
     WrongMagic(i32),
     WrongPulse(i32),
+    NonFiniteOffset(f64),
 }
 
 impl Display for SampleError {
@@ -44,6 +45,7 @@ impl Display for SampleError {
             SampleError::WrongSize(s) => f.write_fmt(format_args!("Invalid size {s}")),
             SampleError::WrongMagic(m) => f.write_fmt(format_args!("Invalid magic {m}")),
             SampleError::WrongPulse(p) => f.write_fmt(format_args!("Invalid pulse {p}")),
+            SampleError::NonFiniteOffset(o) => f.write_fmt(format_args!("Invalid offset {o}")),
         }
     }
 }
@@ -73,6 +75,10 @@ fn deserialize_sample(
 
     if sample.pulse != 0 {
         return Err(SampleError::WrongPulse(sample.pulse));
+    }
+
+    if !sample.offset.is_finite() {
+        return Err(SampleError::NonFiniteOffset(sample.offset));
     }
 
     Ok(sample)
@@ -108,13 +114,17 @@ where
                 SockRecv(Result<usize, std::io::Error>),
             }
 
-            let mut buf = [0; SOCK_SAMPLE_SIZE];
+            // one byte more than a sample, so that an oversized datagram is seen as
+            // such instead of being truncated to the exact sample size by the kernel
+            let mut recv_buf = [0; SOCK_SAMPLE_SIZE + 1];
 
             let selected: SelectResult = tokio::select! {
-                result = self.socket.recv(&mut buf) => {
+                result = self.socket.recv(&mut recv_buf) => {
                     SelectResult::SockRecv(result)
                 },
             };
+
+            let buf: [u8; SOCK_SAMPLE_SIZE] = std::array::from_fn(|i| recv_buf[i]);
 
             match selected {
                 SelectResult::SockRecv(result) => match deserialize_sample(result, buf) {
